@@ -593,6 +593,46 @@ def reference_case(ctx):
                         break
 
 
+def recursion_case(ctx):
+    """directed: an evaluation that runs out of stack (a long chain under a low recursion limit) fails; with room again
+    the same call gives the value of a fresh model, in plain and in iterative mode"""
+    import sys
+    import traceback
+    n = 150
+    cells = {'A1': 1}
+    for i in range(2, n + 1):
+        cells[f'A{i}'] = f'=A{i - 1}+1'
+    for mode in ('plain', 'iterative'):
+        spec = {'sheets': [['Sheet1', cells]], 'names': {}, 'arrays': [],
+                'calc': {'iterate': True, 'count': 20, 'delta': 1e-6} if mode == 'iterative' else None}
+        case = {'kind': 'recursion', 'mode': mode}
+        comp = wb.compile_mem(spec)
+        top = f'Sheet1!A{n}'
+        old = sys.getrecursionlimit()
+        try:
+            sys.setrecursionlimit(max(old, 20000))
+            first = call(comp.evaluate, top)
+            comp.set_value('Sheet1!A1', 11)
+            sys.setrecursionlimit(len(traceback.extract_stack()) + 250)
+            short = call(comp.evaluate, top)
+            sys.setrecursionlimit(max(old, 20000))
+            again = call(comp.evaluate, top)
+        finally:
+            sys.setrecursionlimit(old)
+        ctx.count('directed:out-of-stack')
+        ctx.case(('recursion', mode))
+        if first != ('v', n):
+            ctx.violation(f'recursion-case-first-evaluation/{mode}', f'A{n} = {first!r}, expected {n}', case)
+        elif short[0] == 'v' and short[1] != n + 10:
+            ctx.violation(f'value-after-running-out-of-stack/{mode}', f'under a low recursion limit A{n} = {short!r}', case)
+        elif again != ('v', n + 10):
+            ctx.violation(f'value-after-running-out-of-stack/{mode}',
+                          f'evaluate(A{n}) ran out of stack once ({short!r}); with room again it gives {again!r}, a '
+                          f'fresh model gives {n + 10}', case)
+        elif short[0] != 'v':
+            ctx.count('out_of_stack_failures_observed')
+
+
 def _unbounded_one(ctx, mode, kind, single):
     bad_formula = '=NOSUCH(1)' if kind == 'nosuch' else '=FAILK("u",0,1)'
     src = {'A1': bad_formula, 'B1': 5} if single else {'A1': 1, 'A2': bad_formula, 'A3': 3, 'B1': 5, 'B2': 6}
@@ -644,6 +684,7 @@ def run(ctx):
         unbounded_case(ctx)
         same_value_case(ctx)
         reference_case(ctx)
+        recursion_case(ctx)
     # faults injected into the workbooks shipped with the repository
     realbooks.run_cases(ctx, realbooks.c09_case, realbooks.acyclic_books(), 10 if ctx.quick else 100, fraction=0.25)
     i = j = 0
@@ -667,6 +708,9 @@ def run(ctx):
 
 
 def replay(ctx, case):
+    if case.get('kind') == 'recursion':
+        recursion_case(ctx)
+        return
     if case.get('kind') == 'reference-cell':
         reference_case(ctx)
         return
